@@ -72,6 +72,16 @@ class SeriesStubs:
             a = evaluate(ir, iv, dom)[0][0]
             if dom.alternatives:
                 raise Unsupported("series argument depends on a two-sided branch")
+            if a.is_zero():
+                # argument identically zero: the coefficient is the limit value (C06 S2 ties the code's
+                # Taylor branch to it)
+                from .oracles import SERIES_LIMIT
+                lim = SERIES_LIMIT[key]
+                if lim is None:
+                    raise Unsupported(f"series {key} called at its pole")
+                coefs.append(Val(lim))
+                dcoefs.append(Val(0))
+                continue
             x = ctx.sqrt(a) if squared else a
             tan4 = None
             atan_x = None
